@@ -157,7 +157,7 @@ func (w *vkWorld) report(tp vkTopo, cs vkCase, v vkViol, resolvable bool) {
 		w.c.Note(fmt.Sprintf("dropped (not reproduced 3/3): %s: %s: %s", v.Class, cs, v.Msg))
 		return
 	}
-	w.c.Violation(v.Class+"|"+cs.key(), fmt.Sprintf("%s — %s; config %s; upstream path: %s", msg, w.describe(tp), cs.Cfg, vkClip(vkPath(r.Log), 900)),
+	w.c.Violation(v.Class+"|"+cs.key(), fmt.Sprintf("%s — %s; config %s; upstream path: %s", msg, w.describe(tp), cs.Cfg, vkClip(vkPath(r.LogFirst), 900)),
 		vkReplay{Case: cs, Class: v.Class})
 }
 
@@ -361,7 +361,7 @@ func TestVerifC12Topo(t *testing.T) {
 			return
 		}
 		for _, v := range w.judge(tp, r, resolvable) {
-			c.Violation(v.Class+"|"+rp.Case.key(), v.Msg+" — "+w.describe(tp)+"; path: "+vkClip(vkPath(r.Log), 900), vkReplay{Case: rp.Case, Class: v.Class})
+			c.Violation(v.Class+"|"+rp.Case.key(), v.Msg+" — "+w.describe(tp)+"; path: "+vkClip(vkPath(r.LogFirst), 900), vkReplay{Case: rp.Case, Class: v.Class})
 		}
 		return
 	}
